@@ -1,4 +1,5 @@
-(* Check.v — reindexer/qubit_reindexer.py, common.are_matrices_equivalent_up_to_global_phase,
+(* Check.v — reindexer/qubit_reindexer.py, common.are_matrices_equivalent_up_to_global_phase
+   (AS REPAIRED: the phase is read off at the entry of largest magnitude),
    general_decomposer.check_gate_replacement, ir.compare_gates and the field-wise
    BlochSphereRotation.__eq__, with Python's dispatch of == made explicit. *)
 From Coq Require Import ZArith List Bool.
@@ -55,29 +56,37 @@ Section Check.
     | Ok gs' => gates_matrix N (Z.of_nat (length indices)) gs'
     end.
 
-  (* first entry of A, row-major, with |A[i][j]| > ATOL *)
-  Fixpoint first_nonzero_row (r : list C) (j : nat) : option nat :=
+  (* np.unravel_index(np.argmax(np.abs(A)), A.shape): the FIRST position, row-major,
+     of the entry of largest magnitude.  Left-to-right scan carrying
+     (best position, best magnitude); the best is replaced only by a STRICTLY
+     larger magnitude. *)
+  Fixpoint argmax_row (r : list C) (i j : nat) (best : (nat * nat) * T) : (nat * nat) * T :=
     match r with
-    | [] => None
-    | x :: r' => if nltb N (atol N) (cabs N x) then Some j else first_nonzero_row r' (S j)
+    | [] => best
+    | x :: r' =>
+        let m := cabs N x in
+        argmax_row r' i (S j) (if nltb N (snd best) m then ((i, j), m) else best)
     end.
-  Fixpoint first_nonzero (A : mat) (i : nat) : option (nat * nat) :=
+  Fixpoint argmax_rows (A : mat) (i : nat) (best : (nat * nat) * T) : (nat * nat) * T :=
     match A with
-    | [] => None
-    | r :: A' => match first_nonzero_row r 0 with
-                 | Some j => Some (i, j)
-                 | None => first_nonzero A' (S i)
-                 end
+    | [] => best
+    | r :: A' => argmax_rows A' (S i) (argmax_row r i 0 best)
+    end.
+  (* the scan starts from entry (0,0); without one (empty matrix) np.argmax raises ValueError *)
+  Definition argmax_entry (A : mat) : option (nat * nat) :=
+    match A with
+    | (x :: _) :: _ => Some (fst (argmax_rows A 0 ((0, 0), cabs N x)))
+    | _ => None
     end.
 
   Definition mat_get (A : mat) (ij : nat * nat) : C := nth (snd ij) (nth (fst ij) A []) (c0 N).
   Definition mat_scale (k : C) (A : mat) : mat := map (map (cmul N k)) A.
 
   Definition equiv_up_to_phase (A B : mat) : result bool :=
-    match first_nonzero A 0 with
-    | None => Err EOther                                   (* StopIteration escapes *)
+    match argmax_entry A with
+    | None => Err EValue                                   (* argmax of an empty sequence *)
     | Some ij =>
-        if nltb N (cabs N (mat_get B ij)) (atol N) then Ok false
+        if nltb N (cabs N (mat_get A ij)) (atol N) || nltb N (cabs N (mat_get B ij)) (atol N) then Ok false
         else Ok (mat_allclose N A (mat_scale (cdiv N (mat_get A ij) (mat_get B ij)) B))
     end.
 
